@@ -149,6 +149,35 @@ example : ([] : List Nat) ∈ crashCuts (run (restartCall [[1]] ++ [Op.seek 0, O
 example : [2] ∈ crashCuts (run (restartCall [[1, 1, 1]] ++ [Op.seek 0, Op.truncate, Op.write [2, 2]]) (openFile .a [9])) := by
   decide
 
+/-! ### a call that fails (no crash: `to_dict()` or the encoder raises)
+
+Before the repair the observer had already done `seek(0); truncate()` when the document was being produced: a failing call
+ended there — not a crash, the process goes on — and the file was EMPTY from then on (`failed_call_pinned_empties`). Now the
+document is produced first; a failing call performs no file operation at all (`failed_call_keeps_restart_point`). -/
+
+/-- the ops a FAILED call performs: `pinned` — the code before the repair — had truncated already -/
+def failedRestartCall (pinned : Bool) : List (Op β) := if pinned then [.seek 0, .truncate] else []
+
+/-- **failed_call_keeps_restart_point**: after any number of completed calls, a call that fails leaves the file exactly
+    as the last completed call left it (disk = that document, nothing buffered), and so does any number of failing calls -/
+theorem failed_call_keeps_restart_point (f : File β) (d : List β) (docs : List (List (List β))) (doc : List (List β))
+    (hc : Clean f d) (k : Nat) :
+    Clean (run ((List.replicate k (failedRestartCall false)).flatten) (run (restartOps (docs ++ [doc])) f)) doc.flatten := by
+  have h := restart_after_call f d docs doc hc
+  have : (List.replicate k (failedRestartCall (β := β) false)).flatten = [] := by
+    induction k with
+    | zero => rfl
+    | succ k ih => simp [List.replicate_succ, failedRestartCall, ih]
+  rw [this]
+  exact h
+
+/-- the code before the repair: one failing call after a completed one, and the restart point is gone although nothing
+    crashed — the visible file is empty -/
+theorem failed_call_pinned_empties :
+    crashCuts (run (restartCall [[1, 2, 3]] ++ failedRestartCall true) (openFile .a ([] : List Nat))) = [[]] ∧
+    crashCuts (run (restartCall [[1, 2, 3]] ++ failedRestartCall false) (openFile .a ([] : List Nat))) = [[1, 2, 3]] := by
+  decide
+
 /-! ## protocol recognisers used by the correspondence run -/
 
 theorem isFrameCall_iff (ops : List (Op β)) : isFrameCall ops = true ↔ ∃ w ws, ops = frameCall (w :: ws) :=
